@@ -126,9 +126,11 @@ def c07_schedules(pid, tier, seed):
     """C07, schedule clause: concurrent inc/dec from several threads and clones are never lost. Every sequence of L thread choices
     (TLC, Choices.tla) is replayed on the real code with the scheduler interleaving at atomic load/store/rmw granularity."""
     q = tier == "quick"
-    progs = [("inc_dec", [["inc"], ["dec"]]), ("dec_dec", [["dec"], ["dec"]]), ("inc_inc_dec", [["inc", "inc"], ["dec"]])]
+    progs = [("inc_dec", [["inc"], ["dec"]]), ("dec_dec", [["dec"], ["dec"]]), ("inc_inc_dec", [["inc", "inc"], ["dec"]]),
+             # calls that do not change the position, concurrent with ones that do
+             ("inc_vs_reset_elapsed", [["inc", "inc"], ["reset_elapsed"]]), ("dec_vs_reset_eta_length", [["dec", "inc"], ["reset_eta", "set_length"]])]
     if not q:
-        progs += [("three", [["inc"], ["dec"], ["dec", "inc"]])]
+        progs += [("three", [["inc"], ["dec"], ["dec", "inc"]]), ("inc_vs_finish_free", [["inc", "dec"], ["inc_length", "reset_elapsed", "tick"]])]
     runs = []
     states = trans = 0
     for name, callers in progs:
